@@ -190,6 +190,18 @@ CHECKS = {
         note="stack_effect is C15. has* tables compared as sets. dis.dis text not compared. 3.11/3.12 get_instructions marks no handler targets (both sides).",
         technique="TLC trace validation of xdis.std and of the host's dis against the same TLA+ reference decoder, per host and object kind",
     ),
+    "C12": dict(
+        category="model_checking",
+        text="Spec S12 (ListingTrace.tla): the row model Rows(stream, fmt) of xdis's classic/bytes listings. For corpus and producer files and all six "
+             "formats, disassemble_file runs with sys.stdout/sys.stderr replaced by sentinels and an explicit output stream; TLC steps through the "
+             "instruction stream (breadth-first over code objects, as the disassembler visits them) and the parsed rows together and checks offset, "
+             "opname, operand text, '>>' iff jump target, line column iff starts_line, CACHE rows only in 'bytes', no missing or extra rows; "
+             "totality and an empty sys.stdout are clauses of the same judge. The pydisasm command is run on a subset: exit 0 and identical text. "
+             "The instruction stream itself is the one judged by C02-C05.",
+        design_ref="DESIGN.md section 5 C12, spec S12",
+        note="Extended formats: totality/cleanliness only. Line column before 2.3 not judged. Object addresses masked.",
+        technique="TLC trace validation of parsed listing rows against the TLA+ row model over the recorded instruction stream",
+    ),
 }
 
 NOT_YET = "check not built yet in this round (planned: see DESIGN.md section 5); not claimed until its machinery exists"
